@@ -185,8 +185,9 @@ class SExec:
         if fn is None:
             raise Unsupported("method %s not found" % name)
         params = [a.arg for a in fn.args.args]
-        env = {params[0]: me}
-        for pname, v in zip(params[1:], args):
+        static = any(isinstance(d, ast.Name) and d.id == "staticmethod" for d in fn.decorator_list)
+        env = {} if static else {params[0]: me}
+        for pname, v in zip(params if static else params[1:], args):
             env[pname] = v
         for k, v in (kwargs or {}).items():
             env[k] = v
@@ -421,6 +422,8 @@ class SExec:
             raise GenRaise("AttributeError", "generator has no attribute %s" % attr)
         if isinstance(base, ("".__class__,)):
             return ("strmethod", base, attr)
+        if isinstance(base, Sym) and base.kind in ("str", "ident"):
+            return ("symstrmethod", base, attr)
         if isinstance(base, Tmpl):
             return ("strmethod", base, attr)
         if isinstance(base, SetRef):
@@ -443,11 +446,17 @@ class SExec:
                 return ("enumcls", e.id)
             if e.id in self.models:
                 return ("modelcls", e.id)
-            if e.id in ("str", "len", "sorted", "set", "list", "type", "repr", "tuple", "isinstance", "map", "int", "float"):
+            if e.id in ("str", "len", "sorted", "set", "list", "type", "repr", "tuple", "isinstance", "map", "int", "float", "ascii"):
                 return ("builtin", e.id)
+            if e.id in self.module_names:
+                return ("pymodule", self.module_names[e.id])
             raise Unsupported("name %s" % e.id)
         if isinstance(e, ast.Attribute):
             base = self.ev(e.value, env)
+            if isinstance(base, tuple) and base and base[0] == "pymodule":
+                return ("pyfunc", base[1] + "." + e.attr)
+            if isinstance(base, tuple) and base and base[0] == "builtin" and base[1] == "str":
+                return ("pyfunc", "str." + e.attr)
             if isinstance(base, tuple) and base and base[0] == "enumcls":
                 if e.attr not in self.enums[base[1]]:
                     raise GenRaise("AttributeError", "%s has no member %s" % (base[1], e.attr))
@@ -505,6 +514,8 @@ class SExec:
             return self.comp(e, env)
         if isinstance(e, ast.Call):
             return self.call(e, env)
+        if isinstance(e, ast.Lambda):
+            return ("lambda", e, dict(env))
         if isinstance(e, ast.Subscript):
             base = self.ev(e.value, env)
             if isinstance(base, (list, tuple, str)) and not isinstance(e.slice, ast.Slice):
@@ -641,6 +652,14 @@ class SExec:
                 return self.builtin(f[1], args, kwargs)
             if tag == "strmethod":
                 return self.strmethod(f[1], f[2], args)
+            if tag == "symstrmethod":
+                if not all(isinstance(a, (str, int)) for a in args) or kwargs:
+                    raise Unsupported("str method %s with symbolic arguments" % f[2])
+                return _norm(Tmpl([Hole("strcall", f[1], method=f[2], args=list(args))]))
+            if tag == "pyfunc":
+                # a pure library function applied to symbolic data: kept as a hole, evaluated by the REAL function on the
+                # concrete interpretations of the parse oracle (whitelist in pyvc/tmpl.py)
+                return _norm(Tmpl([Hole("pycall", args[0] if len(args) == 1 else tuple(args), fn=f[1], kwargs=kwargs)]))
             if tag == "setmethod":
                 ref = f[1]
                 if f[2] == "add":
@@ -677,7 +696,11 @@ class SExec:
         if name == "sorted":
             a = args[0]
             if kwargs:
-                raise Unsupported("sorted with key / reverse")
+                # not the plain sorted(): order depends on the key function (ties fall back to the input order)
+                src = a if isinstance(a, (SeqT, list)) else (SeqT("unordered", _set(a)) if isinstance(a, (SetT, SetRef)) else (SeqT("sym", a) if isinstance(a, Sym) else None))
+                if src is None:
+                    raise Unsupported("sorted(%r, key=...)" % (a,))
+                return SeqT("sorted_by", src, kwargs)
             if isinstance(a, (SetT, SetRef)):
                 return SeqT("sorted", _set(a))
             if isinstance(a, (list, tuple)) and all(isinstance(x, str) for x in a):
